@@ -312,6 +312,43 @@ def halo_clause(model, rep, funcs):
         zmm = Matcher(zp).has("find_maxima($$l, min_distance, min_score)")
         rep.ob("S17", h.anchor, "(d) template matching: overlap = half the template (no valid correlation closer to the border) plus ceil(min_distance) + 1 for the maxima search",
                bool(ok1 and ok2 and zmm and radius_ok) if ok2 is not None else None, det, node=h.node, fn=h, clause="halo", stmt="template matcher depth")
+    # local-maximum detection: a voxel is kept when it equals the maximum of its neighbourhood and exceeds the threshold; one position per connected plateau
+    fm = funcs.get(PCC + "find_maxima")
+    if fm is not None:
+        rep.instance("S17", fm.loc())
+        ok, why = Matcher(fm).all_of(["$mf = maximum_filter(img, min_distance)", "$is = ($mf == img) & (img > min_intensity)",
+                                      "$lab, $n = ndi.label($is, ...)", "$cen = ndi.center_of_mass(img, $lab, range(1, $n + 1))", "return np.array($cen, ...).reshape(...)"])
+        rep.ob("S17", fm.anchor, "local maxima = voxels equal to the neighbourhood maximum and above the threshold; one centre of mass per labelled plateau (labels 1..n)",
+               ok, why, node=fm.node, fn=fm, clause="maxima", stmt="find_maxima body")
+    # response polarity: particles are bright, the filters answer with a positive peak at the particle centre
+    lp = funcs.get(PCC + "LoGPicker.pick_in_chunk")
+    if lp is not None:
+        rep.instance("S17", lp.loc())
+        ok, why = Matcher(lp).all_of(["$f = -ndi.gaussian_laplace(image, sigma)", "$pos = find_maxima($f, sigma, 0.0)", "return simple_pick($f, $pos)"])
+        rep.ob("S17", lp.anchor, "LoG response is negated (a bright blob has a negative Laplacian), maxima searched with radius sigma and sampled on the same response",
+               ok, why, node=lp.node, fn=lp, clause="maxima", stmt="LoG polarity")
+    dp = funcs.get(PCC + "DoGPicker.pick_in_chunk")
+    dg = None
+    try:
+        dg = model.func(PCC + "_differece_of_gaussian")
+    except Exception:
+        pass
+    if dp is not None and dg is not None:
+        rep.instance("S17", dp.loc())
+        ok, why = Matcher(dp).all_of(["$f = _differece_of_gaussian(image, sigma_low, sigma_high)", "$pos = find_maxima($f, sigma_low, 0.0)", "return simple_pick($f, $pos)"])
+        ok2, why2 = Matcher(dg).all_of(["$l = ndi.gaussian_filter(image, sigma_low)", "$h = ndi.gaussian_filter(image, sigma_high)", "return $l - $h"])
+        rep.ob("S17", dp.anchor, "DoG response is (narrow Gaussian) - (wide Gaussian), positive on bright blobs; maxima searched with radius sigma_low", bool(ok and ok2),
+               why or why2, node=dp.node, fn=dp, clause="maxima", stmt="DoG polarity")
+    sp = funcs.get(PCC + "simple_pick")
+    if sp is not None:
+        ss = None
+        try:
+            ss = model.func(PCC + "_sample_score")
+        except Exception:
+            pass
+        ok = Matcher(sp).has("$score = _sample_score(img, pos)") and ss is not None and Matcher(ss).has("return ndi.map_coordinates(img, pos.T, ...)")
+        rep.ob("S17", sp.anchor, "the score of a pick is the response sampled at the pick (image first, positions second)", bool(ok), "", node=sp.node, fn=sp,
+               clause="maxima", stmt="simple_pick score")
     # empty chunks do not break the per-chunk worker
     fm = funcs.get(PCC + "find_maxima")
     if fm is not None:
@@ -362,9 +399,9 @@ def bank_clause(model, rep, funcs):
         M = Matcher(h)
         b = {}
         ok, why = M.all_of(["$all = np.stack([ncc_landscape_no_pad(image - np.mean(image), $t - np.mean($t), ...) for $t in templates], axis=0)",
-                            "$arg = np.argmax($all, axis=0)", "$mx = np.max($all, axis=0)", "$pos = find_maxima($mx, min_distance, min_score)",
+                            "$arg = np.argmax($all, axis=0)", "$mx = np.max($all, axis=0)", "$pos = find_maxima($mx, min_distance, min_score)", "$score = _sample_score($mx, $pos)",
                             "$idx = np.array([$arg[tuple(np.round($p).astype($$ty))] for $p in $pos], ...)", "$q = self._index_to_quaternions($idx)",
-                            "return $pos + $$off, $q, $$feat"], b)
+                            "return $pos + $$off, $q, {'score': $score}"], b)
         rep.ob("SAME", h.anchor, "landscapes are stacked in template order; the arg-max over that axis, read at each maximum, indexes the quaternions", ok, why,
                node=h.node, fn=h, clause="bank", stmt="ZNCC argmax")
         okc, det = None, why
@@ -413,5 +450,5 @@ def check(model, rep, tier):
     halo_clause(model, rep, funcs)
     bank_clause(model, rep, funcs)
     rep.floor("U.pick", 3, "(LoG, DoG, ZNCC min_distance)")
-    rep.floor("S17", 6, "(map_overlap site, maximum_filter, LoG/DoG/template depth, find_maxima)")
+    rep.floor("S17", 9, "(map_overlap site, maximum_filter, LoG/DoG/template depth, find_maxima)")
     rep.floor("F.bank", 5, "(bank, lookup, arg-max, box, simple_pick)")
